@@ -587,6 +587,12 @@ func (h *fsHandler) openFSFile(filePath string, mustCompress bool) (*fsFile, err
 			f.Close()
 			return nil, fmt.Errorf("cannot obtain info for original file %q: %s", filePathOriginal, err)
 		}
+		if fileInfoOriginal.IsDir() {
+			// "<dir>.hertz.gz" is the compressed copy of nothing: leave it alone (for the
+			// root it even lies outside the root) and answer for the directory
+			f.Close()
+			return nil, errDirIndexRequired
+		}
 
 		if fileInfoOriginal.ModTime() != fileInfo.ModTime() {
 			// The compressed file became stale. Re-create it.
